@@ -98,11 +98,34 @@ def build_params(world, shared=None):
     return Params(**kw)
 
 
+_CURRENT = {"ex": None}
+
+
+def _recording_step_solver(problem, params, iterate, dt, rho):
+    """Installed through the public hook Params.step_solver: records the step size and the penalty the
+    step equations of a trial are *really* built with, then builds the solver the library would have
+    built (the hook is taken out for the duration of that one call)."""
+    ex = _CURRENT["ex"]
+    if ex is not None and not ex.nested and ex.trials and not ex.finished:
+        tr = ex.trials[-1]
+        if tr.used is None:
+            tr.used = []
+        if len(tr.used) < 64:
+            tr.used.append((float(dt), float(rho)))
+    from pygradflow.step.solver import step_solver as _lib_step_solver
+
+    params.step_solver = None
+    try:
+        return _lib_step_solver(problem, params, iterate, dt, rho)
+    finally:
+        params.step_solver = _recording_step_solver
+
+
 class Trial:
     __slots__ = (
         "t", "inp", "dt", "rho", "lamb", "accepted", "out", "reads_before", "reads_after",
         "evals_before", "evals_after", "nfired_before", "nfired_after", "lin_before", "lin_after",
-        "exc", "penalty", "solver_rho_cb", "filter_after", "filter_before", "cb",
+        "exc", "penalty", "solver_rho_cb", "filter_after", "filter_before", "cb", "used",
     )
 
     def key(self):
@@ -168,6 +191,7 @@ class RecordingSolver(Solver):
         tr.solver_rho_cb = None
         tr.filter_after = None
         tr.filter_before = None
+        tr.used = None
         tr.lamb = float("nan")
         tr.accepted = False
         tr.out = iterate
@@ -507,6 +531,9 @@ def execute(world, *, problem=None, solver=None, params=None, reuse_solver=False
 
                     handles.append(solver.callbacks.register(CallbackType.ComputedStep, reenter))
         ex.x0_arg, ex.y0_arg = x0.copy(), y0.copy()
+        _CURRENT["ex"] = ex
+        if isinstance(solver, RecordingSolver) and getattr(solver.params, "step_solver", None) is None:
+            solver.params.step_solver = _recording_step_solver
         psnap = _params_snapshot(ex.params) if ex.params is not None and not isinstance(ex.params, str) else None
         # fault positions and per-solve records count from solve.begin, also on a re-used device
         problem.count = {c: 0 for c in problem.count}
